@@ -78,6 +78,8 @@ class C06(Monitor):
                         v_.decode(enc)
                 except UnicodeDecodeError:
                     return
+        if f.type == C.PUSH_PROMISE and client and not mine.get(C.S_ENABLE_PUSH, 1):
+            v = ('conn', P)     # push disabled (acknowledged): a connection error whatever the parent's state (C22)
         if f.type == C.DATA and f.fc_len and f.fc_len > s.snap['conn_recv']:
             return          # beyond the connection window: a flow-control connection error whatever the stream state (C04)
         if v == rules.ACCEPT:
